@@ -76,7 +76,7 @@ func (c *c08) Stats() map[string]any {
 	return map[string]any{
 		"executions": c.st.Exec, "cuts": c.st.Cuts, "cut_docs_accepted": c.st.CutDocsAccepted, "cut_docs_rejected": c.st.CutDocsRejected,
 		"multi_cut_files": c.st.MultiCutFiles, "cut_docs_from_fixture_corpus": c.st.CorpusCutDocs, "fs_states": c.st.FSStates, "fs_fault_runs": c.st.FSFaultRuns, "faults_fired": fired,
-		"probe_toctou_split": c.st.Toctou, "probe_fault_at_depth_ge2": c.st.DepthGE2, "cycles": c.st.Cycles, "empty_run_includes": genStats.EmptyIncludes, "include_chains": genStats.Chains, "max_include_chain": genStats.MaxChain,
+		"probe_toctou_split": c.st.Toctou, "probe_fault_at_depth_ge2": c.st.DepthGE2, "cycles": c.st.Cycles, "empty_run_includes": genStats.EmptyIncludes, "cut_files_without_final_line_break": genStats.NoFinalBreak, "include_chains": genStats.Chains, "max_include_chain": genStats.MaxChain,
 		"jsight_in_include": c.st.JsightInInclude, "names": c.st.Names, "names_rejected": c.st.NamesRejected,
 		"names_accepted": c.st.NamesAccepted, "stats_outside_tree": c.st.StatsOutside, "opens_inside_tree": c.st.OpensInside,
 		"distinct": dist, "samples": c.st.Samples,
